@@ -72,10 +72,15 @@ def validate(ck, trace, meta, tag="trace"):
     # operations after which the live store did not show the state / result class Store.tla gives:
     # conformance of the running store is C19/C20's subject - here it is logged (it explains the
     # rejected crash images that follow: those are judged against the model's state)
-    for n in sorted({int(m) for m in re.findall(r'<<"OPDIFF", (\d+)>>', out)})[:20]:
+    diverged = set()
+    for n in sorted({int(m) for m in re.findall(r'<<"OPDIFF", (\d+)>>', out)}):
         ev = json.loads(lines[n - 1])
         ck.cov["drift"] += 1
         ck.cov["live_store_differs_from_model_after_ops"] = ck.cov.get("live_store_differs_from_model_after_ops", 0) + 1
+        k = max(i for i in starts if i < n)
+        if k in diverged:       # only the first divergence of a history is informative
+            continue
+        diverged.add(k)
         vf.log(f"DRIFT property=C22 after operation {ev.get('i')} ({ev.get('op')} h={ev.get('h')} res={ev.get('res')}) the "
                f"live store does not show the state Store.tla gives: stored={ev['st']['stored']} "
                f"sampled={ev['st']['sampled']} pruned={ev['st']['pruned']}")
